@@ -232,12 +232,13 @@ Section Edges.
   Qed.
 
   (** an [FMissing] failure of the checker is [RM_here] or [RM_cow] *)
-  Lemma dfails_missing x m' orig :
-    dfails r s x (FMissing m') -> reaches_missing r [] x orig m'.
+  Lemma dfails_missing_at parents x m' orig :
+    find_parent parents x orig = None ->
+    dfails r s x (FMissing m') -> reaches_missing r parents x orig m'.
   Proof.
-    unfold dfails. rewrite descent_step_unfold.
+    intros Hfp. unfold dfails. rewrite descent_step_unfold.
     destruct (resolve r x) as [t0|] eqn:E0.
-    2:{ intros [E|[]]. inversion E; subst. apply RM_here; [reflexivity|exact E0]. }
+    2:{ intros [E|[]]. inversion E; subst. apply RM_here; [exact Hfp|exact E0]. }
     destruct (is_cow (path_ident (t_path t0))) eqn:Ecow.
     - destruct (t_params t0) as [|p0 ps] eqn:Ep; [intros [E|[]]; discriminate|].
       destruct (tp_ty p0) as [i|] eqn:Ei; [|intros [E|[]]; discriminate].
@@ -247,13 +248,17 @@ Section Edges.
         * destruct (s_compact s); [destruct Hf|destruct Hf as [E|[]]; discriminate].
         * destruct (s_bits s); [destruct Hf|destruct Hf as [E|[]]; discriminate].
       + intros [E|[]]. inversion E; subst.
-        eapply RM_cow; [reflexivity|exact E0| |exact Er].
+        eapply RM_cow; [exact Hfp|exact E0| |exact Er].
         rewrite cow_inner_eq, Ecow, Ep. exact Ei.
     - intros Hf. exfalso. unfold step_def in Hf.
       destruct (t_def t0); cbn [fst] in Hf; try (destruct Hf; fail).
       * destruct (s_compact s); [destruct Hf|destruct Hf as [E|[]]; discriminate].
       * destruct (s_bits s); [destruct Hf|destruct Hf as [E|[]]; discriminate].
   Qed.
+
+  Lemma dfails_missing x m' orig :
+    dfails r s x (FMissing m') -> reaches_missing r [] x orig m'.
+  Proof. apply dfails_missing_at. reflexivity. Qed.
 
   (** soundness of the checker's reachability: any registry, any settings *)
   Lemma dreach_reaches x v m' :
